@@ -1,7 +1,7 @@
 /-
 C06 lemmas, part 2: every operation method returns a well-formed value.
 
-`Res.All P x` — "P holds of the result whenever the call returns one" — and the
+`Res.AllW P x` — "P holds of the result whenever the call returns one" — and the
 tactic `res_all`, which peels a transliterated Go function branch by branch
 (`if`, bind, `match`), carry all the proofs: the result of each branch is either
 a primitive (`isPrim`), a member of a well-formed operand, or an unknown / null of
@@ -13,30 +13,30 @@ set_option linter.unusedVariables false
 namespace CtyModel
 
 /-- `P` holds of the result whenever the call returns one -/
-def Res.All {α} (P : α → Prop) : Res α → Prop
+def Res.AllW {α} (P : α → Prop) : Res α → Prop
   | .ok a => P a
   | _ => True
 
 namespace Res
 variable {α β : Type} {P : β → Prop}
-@[simp] theorem all_ok {P : α → Prop} (a : α) : All P (.ok a) ↔ P a := Iff.rfl
-@[simp] theorem all_pure {P : α → Prop} (a : α) : All P (pure a) ↔ P a := Iff.rfl
-@[simp] theorem all_panic {P : α → Prop} (w : String) : All P (.panic w) := trivial
-@[simp] theorem all_err {P : α → Prop} (w : String) : All P (.err w) := trivial
-@[simp] theorem all_unmodelled {P : α → Prop} : All P (.unmodelled : Res α) := trivial
-theorem all_bind (x : Res α) (f : α → Res β) : All P (x >>= f) ↔ All (fun a => All P (f a)) x := by
-  cases x <;> simp [All] <;> rfl
-theorem all_map (x : Res α) (f : α → β) : All P (x.map f) ↔ All (fun a => P (f a)) x := by
-  cases x <;> simp [All, Res.map]
-theorem all_of_forall {P : α → Prop} (x : Res α) (h : ∀ a, P a) : All P x := by
-  cases x <;> simp [All, h]
-theorem all_mono {P Q : α → Prop} {x : Res α} (h : All P x) (hpq : ∀ a, P a → Q a) : All Q x := by
-  cases x <;> simp_all [All]
+@[simp] theorem all_ok {P : α → Prop} (a : α) : AllW P (.ok a) ↔ P a := Iff.rfl
+@[simp] theorem all_pure {P : α → Prop} (a : α) : AllW P (pure a) ↔ P a := Iff.rfl
+@[simp] theorem all_panic {P : α → Prop} (w : String) : AllW P (.panic w) := trivial
+@[simp] theorem all_err {P : α → Prop} (w : String) : AllW P (.err w) := trivial
+@[simp] theorem all_unmodelled {P : α → Prop} : AllW P (.unmodelled : Res α) := trivial
+theorem all_bind (x : Res α) (f : α → Res β) : AllW P (x >>= f) ↔ AllW (fun a => AllW P (f a)) x := by
+  cases x <;> simp [AllW] <;> rfl
+theorem all_map (x : Res α) (f : α → β) : AllW P (x.map f) ↔ AllW (fun a => P (f a)) x := by
+  cases x <;> simp [AllW, Res.map]
+theorem all_of_forall {P : α → Prop} (x : Res α) (h : ∀ a, P a) : AllW P x := by
+  cases x <;> simp [AllW, h]
+theorem all_mono {P Q : α → Prop} {x : Res α} (h : AllW P x) (hpq : ∀ a, P a → Q a) : AllW Q x := by
+  cases x <;> simp_all [AllW]
 theorem all_ite {P : α → Prop} (c : Prop) [Decidable c] (x y : Res α) :
-    All P (if c then x else y) ↔ (c → All P x) ∧ (¬c → All P y) := by
+    AllW P (if c then x else y) ↔ (c → AllW P x) ∧ (¬c → AllW P y) := by
   by_cases h : c <;> simp [h]
-theorem all_iff {P : α → Prop} {x : Res α} : All P x ↔ ∀ a, x = .ok a → P a := by
-  cases x <;> simp [All]
+theorem all_iff {P : α → Prop} {x : Res α} : AllW P x ↔ ∀ a, x = .ok a → P a := by
+  cases x <;> simp [AllW]
 end Res
 
 /-- peel one layer of a `Res` computation: a closed goal, an `if`, a bind, or a `match` -/
@@ -94,7 +94,7 @@ theorem isPrim_numRangeResult (lo hi : Option Num) : (numRangeResult lo hi).isPr
 /-- the shared prologues: result of the unmarked call, marks re-applied -/
 theorem all_binMarks {P : Value → Prop} (f : Value → Value → Res Value) (a b : Value)
     (hP : ∀ v ms, P v → P (v.withMarks ms))
-    (h1 : Res.All P (f a.unmark b.unmark)) (h2 : Res.All P (f a b)) : Res.All P (binMarks f a b) := by
+    (h1 : Res.AllW P (f a.unmark b.unmark)) (h2 : Res.AllW P (f a b)) : Res.AllW P (binMarks f a b) := by
   unfold binMarks
   split
   · rw [Res.all_map]; exact Res.all_mono h1 (fun v hv => hP v _ hv)
@@ -102,13 +102,13 @@ theorem all_binMarks {P : Value → Prop} (f : Value → Value → Res Value) (a
 
 theorem all_unMarks {P : Value → Prop} (f : Value → Res Value) (a : Value)
     (hP : ∀ v ms, P v → P (v.withMarks ms))
-    (h1 : Res.All P (f a.unmark)) (h2 : Res.All P (f a)) : Res.All P (unMarks f a) := by
+    (h1 : Res.AllW P (f a.unmark)) (h2 : Res.AllW P (f a)) : Res.AllW P (unMarks f a) := by
   unfold unMarks
   split
   · rw [Res.all_map]; exact Res.all_mono h1 (fun v hv => hP v _ hv)
   · exact h2
 
-theorem all_prim_lessThanU (a b : Value) : Res.All (fun r => r.isPrim = true) (lessThanU a b) := by
+theorem all_prim_lessThanU (a b : Value) : Res.AllW (fun r => r.isPrim = true) (lessThanU a b) := by
   unfold lessThanU
   simp only [Res.all_bind]
   apply Res.all_of_forall
@@ -118,7 +118,7 @@ theorem all_prim_lessThanU (a b : Value) : Res.All (fun r => r.isPrim = true) (l
   all_goals
     apply Res.all_of_forall; intro o; cases o <;> simp
 
-theorem all_prim_greaterThanU (a b : Value) : Res.All (fun r => r.isPrim = true) (greaterThanU a b) := by
+theorem all_prim_greaterThanU (a b : Value) : Res.AllW (fun r => r.isPrim = true) (greaterThanU a b) := by
   unfold greaterThanU
   simp only [Res.all_bind]
   apply Res.all_of_forall
@@ -138,7 +138,7 @@ theorem all_prim_greaterThanU (a b : Value) : Res.All (fun r => r.isPrim = true)
       · simp
     · simp
 
-theorem all_prim_notU (a : Value) : Res.All (fun r => r.isPrim = true) (notU a) := by
+theorem all_prim_notU (a : Value) : Res.AllW (fun r => r.isPrim = true) (notU a) := by
   unfold notU
   simp only [Res.all_bind]
   apply Res.all_of_forall
@@ -147,7 +147,7 @@ theorem all_prim_notU (a : Value) : Res.All (fun r => r.isPrim = true) (notU a) 
   · apply Res.all_of_forall; intro x; simp
   all_goals simp
 
-theorem all_prim_andU (a b : Value) : Res.All (fun r => r.isPrim = true) (andU a b) := by
+theorem all_prim_andU (a b : Value) : Res.AllW (fun r => r.isPrim = true) (andU a b) := by
   unfold andU
   simp only [Res.all_bind]
   apply Res.all_of_forall
@@ -159,7 +159,7 @@ theorem all_prim_andU (a b : Value) : Res.All (fun r => r.isPrim = true) (andU a
     · simp only [Res.all_bind]; apply Res.all_of_forall; intro y; simp
   all_goals split <;> simp
 
-theorem all_prim_orU (a b : Value) : Res.All (fun r => r.isPrim = true) (orU a b) := by
+theorem all_prim_orU (a b : Value) : Res.AllW (fun r => r.isPrim = true) (orU a b) := by
   unfold orU
   simp only [Res.all_bind]
   apply Res.all_of_forall
@@ -172,7 +172,7 @@ theorem all_prim_orU (a b : Value) : Res.All (fun r => r.isPrim = true) (orU a b
   all_goals split <;> simp
 
 theorem all_prim_rangeArith (op : Num → Num → Res Num) (a b : Value) :
-    Res.All (fun r => r.isPrim = true) (rangeArith op a b) := by
+    Res.AllW (fun r => r.isPrim = true) (rangeArith op a b) := by
   unfold rangeArith
   simp only [Res.all_bind]
   apply Res.all_of_forall; intro ra; apply Res.all_of_forall; intro rb
@@ -181,7 +181,7 @@ theorem all_prim_rangeArith (op : Num → Num → Res Num) (a b : Value) :
   simp [isPrim_numRangeResult]
 
 theorem all_prim_arithU (opN : Num → Num → Res Num) (a b : Value) :
-    Res.All (fun r => r.isPrim = true)
+    Res.AllW (fun r => r.isPrim = true)
       (do match ← typeCheck .number [a, b] with
           | .none => pure (numVal (← opN (← asNum a) (← asNum b)))
           | _ => rangeArith opN a b) := by
@@ -192,11 +192,11 @@ theorem all_prim_arithU (opN : Num → Num → Res Num) (a b : Value) :
   · apply Res.all_of_forall; intro x; apply Res.all_of_forall; intro y; apply Res.all_of_forall; intro z; simp
   all_goals exact all_prim_rangeArith _ _ _
 
-theorem all_prim_addU (a b : Value) : Res.All (fun r => r.isPrim = true) (addU a b) := all_prim_arithU Num.add a b
-theorem all_prim_subU (a b : Value) : Res.All (fun r => r.isPrim = true) (subU a b) := all_prim_arithU Num.sub a b
-theorem all_prim_mulU (a b : Value) : Res.All (fun r => r.isPrim = true) (mulU a b) := all_prim_arithU Num.mulCty a b
+theorem all_prim_addU (a b : Value) : Res.AllW (fun r => r.isPrim = true) (addU a b) := all_prim_arithU Num.add a b
+theorem all_prim_subU (a b : Value) : Res.AllW (fun r => r.isPrim = true) (subU a b) := all_prim_arithU Num.sub a b
+theorem all_prim_mulU (a b : Value) : Res.AllW (fun r => r.isPrim = true) (mulU a b) := all_prim_arithU Num.mulCty a b
 
-theorem all_prim_divU (a b : Value) : Res.All (fun r => r.isPrim = true) (divU a b) := by
+theorem all_prim_divU (a b : Value) : Res.AllW (fun r => r.isPrim = true) (divU a b) := by
   unfold divU
   simp only [Res.all_bind]
   apply Res.all_of_forall
@@ -205,7 +205,7 @@ theorem all_prim_divU (a b : Value) : Res.All (fun r => r.isPrim = true) (divU a
   · apply Res.all_of_forall; intro x; apply Res.all_of_forall; intro y; apply Res.all_of_forall; intro z; simp
   all_goals simp
 
-theorem all_prim_negU (a : Value) : Res.All (fun r => r.isPrim = true) (negU a) := by
+theorem all_prim_negU (a : Value) : Res.AllW (fun r => r.isPrim = true) (negU a) := by
   unfold negU
   simp only [Res.all_bind]
   apply Res.all_of_forall
@@ -214,7 +214,7 @@ theorem all_prim_negU (a : Value) : Res.All (fun r => r.isPrim = true) (negU a) 
   · apply Res.all_of_forall; intro x; simp
   all_goals simp
 
-theorem all_prim_absU (a : Value) : Res.All (fun r => r.isPrim = true) (absU a) := by
+theorem all_prim_absU (a : Value) : Res.AllW (fun r => r.isPrim = true) (absU a) := by
   unfold absU
   simp only [Res.all_bind]
   apply Res.all_of_forall
@@ -223,7 +223,7 @@ theorem all_prim_absU (a : Value) : Res.All (fun r => r.isPrim = true) (absU a) 
   · apply Res.all_of_forall; intro x; simp
   all_goals simp [isPrim, Refine.kindOk]
 
-theorem all_wf_modU (a b : Value) (ha : a.WF nfc = true) : Res.All (fun r => r.WF nfc = true) (modU a b) := by
+theorem all_wf_modU (a b : Value) (ha : a.WF nfc = true) : Res.AllW (fun r => r.WF nfc = true) (modU a b) := by
   unfold modU
   simp only [Res.all_bind]
   apply Res.all_of_forall
@@ -246,30 +246,30 @@ theorem all_wf_modU (a b : Value) (ha : a.WF nfc = true) : Res.All (fun r => r.W
           simp
   all_goals simp
 
-theorem all_prim_hasIndexU (a b : Value) : Res.All (fun r => r.isPrim = true) (hasIndexU a b) := by
+theorem all_prim_hasIndexU (a b : Value) : Res.AllW (fun r => r.isPrim = true) (hasIndexU a b) := by
   unfold hasIndexU
   res_all
 
-theorem all_prim_lengthU (a : Value) : Res.All (fun r => r.isPrim = true) (lengthU a) := by
+theorem all_prim_lengthU (a : Value) : Res.AllW (fun r => r.isPrim = true) (lengthU a) := by
   unfold lengthU
   res_all
   all_goals simp [isPrim_numRangeResult]
 
-theorem all_prim_hasElementU (a b : Value) (h : Option Int) : Res.All (fun r => r.isPrim = true) (hasElementU a b h) := by
+theorem all_prim_hasElementU (a b : Value) (h : Option Int) : Res.AllW (fun r => r.isPrim = true) (hasElementU a b h) := by
   unfold hasElementU
   res_all
   all_goals
     rw [Res.all_map]; apply Res.all_of_forall; intro f; split <;> simp
 
 theorem all_prim_equalsPre (a b : Value) :
-    Res.All (fun o => ∀ r, o = some r → r.isPrim = true) (equalsPre a b) := by
+    Res.AllW (fun o => ∀ r, o = some r → r.isPrim = true) (equalsPre a b) := by
   unfold equalsPre
   res_all
 
 theorem isPrim_accVal (x : EqAcc) : (accVal x).isPrim = true := by cases x <;> rfl
 
 theorem all_prim_equalsFuel : ∀ (n : Nat) (ta : Ty) (a : Payload) (tb : Ty) (b : Payload),
-    Res.All (fun r => r.isPrim = true) (equalsFuel n ta a tb b)
+    Res.AllW (fun r => r.isPrim = true) (equalsFuel n ta a tb b)
   | 0, _, _, _, _ => by simp [equalsFuel]
   | n + 1, ta, a, tb, b => by
     unfold equalsFuel
@@ -287,7 +287,7 @@ theorem all_prim_equalsFuel : ∀ (n : Nat) (ta : Ty) (a : Payload) (tb : Ty) (b
         | skip
 
 theorem all_prim_equalsP (ta : Ty) (a : Payload) (tb : Ty) (b : Payload) :
-    Res.All (fun r => r.isPrim = true) (equalsP ta a tb b) := all_prim_equalsFuel _ _ _ _ _
+    Res.AllW (fun r => r.isPrim = true) (equalsP ta a tb b) := all_prim_equalsFuel _ _ _ _ _
 
 
 theorem wf_unknown {t : Ty} (h : t.ok nfc = true) : (unknown t).WF nfc = true := by
@@ -310,7 +310,7 @@ theorem attr_wf {v : Value} {ns ts os name aty o ks vs p} (hv : v.WF nfc = true)
   exact Payload.wfZip_find hz hf hl
 
 theorem all_wf_getAttrU (v : Value) (name : String) (hv : v.WF nfc = true) :
-    Res.All (fun r => r.WF nfc = true) (getAttrU v name) := by
+    Res.AllW (fun r => r.WF nfc = true) (getAttrU v name) := by
   unfold getAttrU
   res_all
   · rename_i _ _ ns ts os hty _ aty o hfind _
@@ -356,7 +356,7 @@ theorem tuple_member_wf {v : Value} {es : List Ty} {vs : List Payload} {i : Nat}
   simp [WF, he, Payload.wfZip_getElem hv.2.2 ht hi]
 
 theorem all_wf_indexU (v k : Value) (hv : v.WF nfc = true) :
-    Res.All (fun r => r.WF nfc = true) (indexU v k) := by
+    Res.AllW (fun r => r.WF nfc = true) (indexU v k) := by
   unfold indexU
   res_all
   all_goals first
@@ -369,39 +369,39 @@ theorem all_wf_indexU (v k : Value) (hv : v.WF nfc = true) :
 
 /-! ### the operation methods themselves (mark prologue included) -/
 
-theorem all_wf_of_prim {x : Res Value} (h : Res.All (fun r => r.isPrim = true) x) :
-    Res.All (fun r => r.WF nfc = true) x := Res.all_mono h fun _ => wf_of_isPrim
+theorem all_wf_of_prim {x : Res Value} (h : Res.AllW (fun r => r.isPrim = true) x) :
+    Res.AllW (fun r => r.WF nfc = true) x := Res.all_mono h fun _ => wf_of_isPrim
 
-theorem all_wf_binPrim (f : Value → Value → Res Value) (hf : ∀ a b, Res.All (fun r => r.isPrim = true) (f a b))
-    (a b : Value) : Res.All (fun r => r.WF nfc = true) (binMarks f a b) :=
+theorem all_wf_binPrim (f : Value → Value → Res Value) (hf : ∀ a b, Res.AllW (fun r => r.isPrim = true) (f a b))
+    (a b : Value) : Res.AllW (fun r => r.WF nfc = true) (binMarks f a b) :=
   all_binMarks f a b (fun _ ms h => wf_withMarks ms h) (all_wf_of_prim (hf _ _)) (all_wf_of_prim (hf _ _))
 
-theorem all_wf_unPrim (f : Value → Res Value) (hf : ∀ a, Res.All (fun r => r.isPrim = true) (f a))
-    (a : Value) : Res.All (fun r => r.WF nfc = true) (unMarks f a) :=
+theorem all_wf_unPrim (f : Value → Res Value) (hf : ∀ a, Res.AllW (fun r => r.isPrim = true) (f a))
+    (a : Value) : Res.AllW (fun r => r.WF nfc = true) (unMarks f a) :=
   all_unMarks f a (fun _ ms h => wf_withMarks ms h) (all_wf_of_prim (hf _)) (all_wf_of_prim (hf _))
 
-theorem all_wf_equals (a b : Value) : Res.All (fun r => r.WF nfc = true) (equals a b) := by
+theorem all_wf_equals (a b : Value) : Res.AllW (fun r => r.WF nfc = true) (equals a b) := by
   unfold equals
   split
   · rw [Res.all_map]
     exact Res.all_mono (all_prim_equalsP _ _ _ _) fun _ h => wf_withMarks _ (wf_of_isPrim h)
   · exact all_wf_of_prim (all_prim_equalsP _ _ _ _)
 
-theorem all_wf_mod (a b : Value) (ha : a.WF nfc = true) : Res.All (fun r => r.WF nfc = true) (mod a b) :=
+theorem all_wf_mod (a b : Value) (ha : a.WF nfc = true) : Res.AllW (fun r => r.WF nfc = true) (mod a b) :=
   all_binMarks modU a b (fun _ ms h => wf_withMarks ms h) (all_wf_modU _ _ (wf_unmark ha)) (all_wf_modU _ _ ha)
 
 theorem all_wf_getAttr (v : Value) (name : String) (hv : v.WF nfc = true) :
-    Res.All (fun r => r.WF nfc = true) (getAttr v name) := by
+    Res.AllW (fun r => r.WF nfc = true) (getAttr v name) := by
   unfold getAttr
   split
   · rw [Res.all_map]
     exact Res.all_mono (all_wf_getAttrU _ name (wf_unmark hv)) fun _ h => wf_withMarks _ h
   · exact all_wf_getAttrU _ name hv
 
-theorem all_wf_index (v k : Value) (hv : v.WF nfc = true) : Res.All (fun r => r.WF nfc = true) (index v k) :=
+theorem all_wf_index (v k : Value) (hv : v.WF nfc = true) : Res.AllW (fun r => r.WF nfc = true) (index v k) :=
   all_binMarks indexU v k (fun _ ms h => wf_withMarks ms h) (all_wf_indexU _ _ (wf_unmark hv)) (all_wf_indexU _ _ hv)
 
-theorem all_wf_hasElement (v e : Value) (h : Option Int) : Res.All (fun r => r.WF nfc = true) (hasElement v e h) := by
+theorem all_wf_hasElement (v e : Value) (h : Option Int) : Res.AllW (fun r => r.WF nfc = true) (hasElement v e h) := by
   unfold hasElement
   split
   · rw [Res.all_map]
